@@ -2,7 +2,7 @@
    by every operation (accepted, rejected or failing), the effect clauses of C11, atomicity of a
    rejected / failing assignment (C02, BinaryNode share) and irrelevance of the assertion switch for
    accepted operations (C20, BinaryNode share). *)
-From BT Require Import Base.Prelude Heap.Forest Heap.Binary.
+From BT Require Import Base.Prelude Heap.Forest Heap.Binary Spec.PC11.
 
 (* ========================================================================================== *)
 (* 1. slot lists *)
@@ -816,3 +816,1013 @@ Qed.
 
 Lemma del_BWF s (p : id) : BWF s -> p < bsize s -> BWF (bdel_children s p).
 Proof. intros W Hp. destruct (del_relinked s p W Hp) as [R V]. exact (relink_BWF _ _ _ _ W V R). Qed.
+
+(* ------------------------------------------------------------------------------------------ *)
+(* p.children = [a; b]: the stealing loop, started from the state `sd` left by `del p.children` *)
+
+Definition rmo (o : option id) (v : option id) : option id :=
+  match o with Some x => rm x v | None => v end.
+
+Lemma rmo_erases o v z : rmo o v = Some z -> v = Some z.
+Proof. destruct o as [x|]; cbn [rmo]; [|auto]. intros H. apply rm_Some in H. tauto. Qed.
+
+Lemma once_erased (F : option id -> option id) l l' :
+  (forall v z, F v = Some z -> v = Some z) ->
+  (forall j, slot l' j = F (slot l j)) -> once l -> once l'.
+Proof.
+  intros HF Hs Ho i j x Hi Hj. rewrite Hs in Hi, Hj. exact (Ho _ _ _ (HF _ _ Hi) (HF _ _ Hj)).
+Qed.
+
+Lemma steal_inv sd st (p : id) o (F : option id -> option id) : BWF sd ->
+  (forall v z, F v = Some z -> v = Some z) ->
+  (forall q, q <> p -> length (bkids st q) = length (bkids sd q)
+                       /\ forall j, slot (bkids st q) j = F (slot (bkids sd q) j)) ->
+  (forall x, o = Some x -> bpar st x = bpar sd x /\ bpar sd x <> Some p) ->
+  bsize (bsteal p st o) = bsize st
+  /\ (forall z, bpar (bsteal p st o) z = match o with Some x => upd (bpar st) x (Some p) z | None => bpar st z end)
+  /\ bkids (bsteal p st o) p = bkids st p
+  /\ (forall q, q <> p -> length (bkids (bsteal p st o) q) = length (bkids sd q)
+                          /\ forall j, slot (bkids (bsteal p st o) q) j = rmo o (F (slot (bkids sd q) j))).
+Proof.
+  intros W HF Hinv Ho. destruct o as [x|]; cbn [bsteal rmo].
+  2:{ repeat split; try reflexivity; apply Hinv; assumption. }
+  destruct (Ho x eq_refl) as [Ex Hxp]. cbn [bsize bpar bkids bset_par].
+  split; [apply detach_size|]. split; [intros z; unfold upd; rewrite detach_par; reflexivity|].
+  assert (Hno : forall q, q <> p -> bpar sd x <> Some q -> forall j, rm x (F (slot (bkids sd q) j)) = F (slot (bkids sd q) j)).
+  { intros q Hq Hne j. apply rm_absent. intros H. apply HF in H. apply (bw_down sd W) in H. congruence. }
+  unfold bdetach. rewrite Ex. destruct (bpar sd x) as [q0|] eqn:E0.
+  - assert (Hq0 : q0 <> p) by congruence. cbn [bkids bset_kids]. split; [apply upd_other; congruence|].
+    intros q Hq. destruct (Hinv q Hq) as [Hlen Hs]. destruct (Nat.eq_dec q q0) as [->|Hne].
+    + rewrite upd_same. split; [rewrite clear_slot_length; exact Hlen|]. intros j.
+      rewrite slot_clear; [rewrite Hs; reflexivity|].
+      exact (once_erased F _ _ HF Hs (bw_once sd W q0)).
+    + rewrite upd_other by exact Hne. split; [exact Hlen|]. intros j. rewrite Hs. symmetry.
+      apply Hno; [exact Hq|congruence].
+  - split; [reflexivity|]. intros q Hq. destruct (Hinv q Hq) as [Hlen Hs]. split; [exact Hlen|].
+    intros j. rewrite Hs. symmetry. apply Hno; [exact Hq|discriminate].
+Qed.
+
+Lemma rmset_rmo a b v : rmset [a; b] v = rmo b (rmo a v).
+Proof.
+  unfold rmset. destruct v as [z|]; [|destruct a, b; reflexivity].
+  cbn [slot_mem existsb]. destruct a as [x|]; destruct b as [y|]; cbn [rmo rm orb].
+  - rewrite (Nat.eqb_sym z x), (Nat.eqb_sym z y). destruct (Nat.eqb x z); cbn [orb rm]; [reflexivity|].
+    rewrite Bool.orb_false_r. destruct (Nat.eqb y z); reflexivity.
+  - rewrite (Nat.eqb_sym z x), Bool.orb_false_r. destruct (Nat.eqb x z); reflexivity.
+  - rewrite (Nat.eqb_sym z y), Bool.orb_false_r. destruct (Nat.eqb y z); reflexivity.
+  - reflexivity.
+Qed.
+
+Lemma no_kids_parent sd (p x : id) : BWF sd -> bkids sd p = [None; None] -> bpar sd x <> Some p.
+Proof.
+  intros W E H. destruct (bw_up sd W _ _ H) as [i Hi]. rewrite E, slot2 in Hi.
+  destruct i as [|[|i]]; discriminate.
+Qed.
+
+Lemma steal_relinked sd (p : id) a b : BWF sd -> bkids sd p = [None; None] ->
+  (forall x, a = Some x -> b = Some x -> False) ->
+  relinked sd (fold_left (bsteal p) [a; b] (bset_kids sd p [a; b])) p [a; b].
+Proof.
+  intros W E Hab. cbn [fold_left]. set (st0 := bset_kids sd p [a; b]).
+  assert (I0 : forall q, q <> p -> length (bkids st0 q) = length (bkids sd q)
+                                   /\ forall j, slot (bkids st0 q) j = (fun v => v) (slot (bkids sd q) j)).
+  { intros q Hq. unfold st0. cbn [bkids bset_kids]. rewrite upd_other by exact Hq. split; reflexivity. }
+  destruct (steal_inv sd st0 p a (fun v => v) W ltac:(auto) I0) as [S1 [P1 [K1 I1]]].
+  { intros x _. split; [reflexivity|]. apply no_kids_parent; assumption. }
+  destruct (steal_inv sd (bsteal p st0 a) p b (fun v => rmo a v) W (rmo_erases a) I1) as [S2 [P2 [K2 I2]]].
+  { intros y Hy. split; [|apply no_kids_parent; assumption]. rewrite P1. destruct a as [x|]; [|reflexivity].
+    apply upd_other. intros ->. exact (Hab x eq_refl Hy). }
+  constructor.
+  - rewrite S2, S1. reflexivity.
+  - intros z. rewrite P2. rewrite E. cbn [slot_mem existsb].
+    destruct b as [y|]; destruct a as [x|]; unfold upd; rewrite ?P1; unfold upd; unfold st0; cbn [bpar bset_kids];
+      repeat match goal with |- context [Nat.eqb ?u ?v] => destruct (Nat.eqb_spec u v) end; subst; try reflexivity.
+  - rewrite K2, K1. unfold st0. cbn [bkids bset_kids]. apply upd_same.
+  - intros q Hq. apply I2. exact Hq.
+  - intros q j Hq. destruct (I2 q Hq) as [_ Hs]. rewrite Hs, rmset_rmo. reflexivity.
+Qed.
+
+Lemma rmset_nones v : rmset [None; None] v = v.
+Proof. destruct v; reflexivity. Qed.
+
+Lemma assign_relinked s (p : id) a b : BWF s -> p < bsize s ->
+  (forall x, a = Some x -> b = Some x -> False) ->
+  relinked s (bassign_children s p [a; b]) p [a; b].
+Proof.
+  intros W Hp Hab. destruct (del_relinked s p W Hp) as [[S1 P1 K1 L1 Q1] V1].
+  pose proof (del_BWF s p W Hp) as Wd.
+  pose proof (steal_relinked (bdel_children s p) p a b Wd K1 Hab) as [S2 P2 K2 L2 Q2].
+  unfold bassign_children. constructor.
+  - rewrite S2. exact S1.
+  - intros x. rewrite P2, K1, P1. cbn [slot_mem existsb]. reflexivity.
+  - exact K2.
+  - intros q Hq. rewrite L2 by exact Hq. apply L1. exact Hq.
+  - intros q j Hq. rewrite Q2, Q1 by exact Hq. rewrite rmset_nones. reflexivity.
+Qed.
+
+(* what the guards of the children setter establish *)
+Lemma check_valid s (p : id) a1 a2 : BWF s -> p < bsize s ->
+  barg_in_range s a1 = true -> barg_in_range s a2 = true ->
+  bcheck_children s p [a1; a2] [] = None ->
+  valid_news s p [slot_of_arg a1; slot_of_arg a2]
+  /\ (forall x, slot_of_arg a1 = Some x -> slot_of_arg a2 = Some x -> False).
+Proof.
+  intros W Hp R1 R2 H.
+  assert (Hone : forall a x seen rest, slot_of_arg a = Some x ->
+            bcheck_children s p (a :: rest) seen = None ->
+            x <> p /\ ~ In x (bancestors s p) /\ ~ In x seen /\ bcheck_children s p rest (x :: seen) = None).
+  { intros a x seen rest Ha Hc. destruct a as [y| |]; try discriminate. injection Ha as ->.
+    cbn [bcheck_children] in Hc. destruct (Nat.eqb_spec x p); [discriminate|].
+    destruct (memb x (bancestors s p)) eqn:E1; [discriminate|].
+    destruct (memb x seen) eqn:E2; [discriminate|].
+    repeat split; try assumption; intros Hin; apply memb_In in Hin; congruence. }
+  assert (Hrange : forall a x, barg_in_range s a = true -> slot_of_arg a = Some x -> x < bsize s).
+  { intros a x Hr Ha. destruct a as [y| |]; try discriminate. injection Ha as ->. apply Nat.ltb_lt. exact Hr. }
+  split.
+  - constructor; [reflexivity| |exact Hp|].
+    + intros i j x. rewrite !slot2. destruct i as [|[|i]]; destruct j as [|[|j]]; try discriminate; try reflexivity.
+      * intros H1 H2. exfalso. destruct (Hone _ _ _ _ H1 H) as [_ [_ [_ H3]]].
+        destruct a1 as [y| |]; try discriminate. injection H1 as ->.
+        destruct (Hone _ _ _ _ H2 H3) as [_ [_ [Hn _]]]. apply Hn. left. reflexivity.
+      * intros H2 H1. exfalso. destruct (Hone _ _ _ _ H1 H) as [_ [_ [_ H3]]].
+        destruct a1 as [y| |]; try discriminate. injection H1 as ->.
+        destruct (Hone _ _ _ _ H2 H3) as [_ [_ [Hn _]]]. apply Hn. left. reflexivity.
+    + intros x [H1|[H2|[]]].
+      * destruct (Hone _ _ _ _ H1 H) as [Ha [Hb _]]. split; [exact (Hrange _ _ R1 H1)|]. split; assumption.
+      * destruct a1 as [y| |].
+        -- destruct (Hone (ANode y) y [] [a2] eq_refl H) as [_ [_ [_ H3]]].
+           destruct (Hone _ _ _ _ H2 H3) as [Ha [Hb _]]. split; [exact (Hrange _ _ R2 H2)|]. split; assumption.
+        -- change (bcheck_children s p [a2] [] = None) in H. destruct (Hone _ _ _ _ H2 H) as [Ha [Hb _]].
+           split; [exact (Hrange _ _ R2 H2)|]. split; assumption.
+        -- discriminate.
+  - intros x H1 H2. destruct (Hone _ _ _ _ H1 H) as [_ [_ [_ H3]]].
+    destruct a1 as [y| |]; try discriminate. injection H1 as ->.
+    destruct (Hone _ _ _ _ H2 H3) as [_ [_ [Hn _]]]. apply Hn. left. reflexivity.
+Qed.
+
+(* ------------------------------------------------------------------------------------------ *)
+(* the except block of the children setter gives back the state the setter started from *)
+
+Lemma fold_inv {E} (f : bheap -> E -> bheap) (P : bheap -> Prop) l :
+  (forall e st, In e l -> P st -> P (f st e)) -> forall st, P st -> P (fold_left f l st).
+Proof.
+  induction l as [|h t IH]; intros H st Hst; [exact Hst|]. cbn [fold_left].
+  apply IH; [intros e st' He; apply H; right; exact He|]. apply H; [left; reflexivity|exact Hst].
+Qed.
+
+(* I: a side invariant; P: established by the step for e0 (under I), stable afterwards *)
+Lemma fold_est {E} (f : bheap -> E -> bheap) (I P : bheap -> Prop) l e0 :
+  In e0 l ->
+  (forall e st, In e l -> I st -> I (f st e)) ->
+  (forall st, I st -> P (f st e0)) ->
+  (forall e st, In e l -> I st -> P st -> P (f st e)) ->
+  forall st, I st -> P (fold_left f l st).
+Proof.
+  induction l as [|h t IH]; intros Hin HI Hest Hstab st Ist; [contradiction|]. cbn [fold_left].
+  assert (HIt : forall e st, In e t -> I st -> I (f st e)) by (intros; apply HI; [right|]; assumption).
+  assert (Hstt : forall e st, In e t -> I st -> P st -> P (f st e)) by (intros; apply Hstab; [right| |]; assumption).
+  assert (Ih : I (f st h)) by (apply HI; [left; reflexivity|exact Ist]).
+  destruct Hin as [->|Hin].
+  - assert (HIP : I (f st e0) /\ P (f st e0)) by (split; [exact Ih|apply Hest; exact Ist]).
+    revert HIP. generalize (f st e0). clear - HIt Hstt. induction t as [|h t IH]; intros st [Hi Hp]; [exact Hp|].
+    cbn [fold_left]. apply IH.
+    + intros; apply HIt; [right|]; assumption.
+    + intros; apply Hstt; [right| |]; assumption.
+    + split; [apply HIt; [left; reflexivity|exact Hi]|apply Hstt; [left; reflexivity|exact Hi|exact Hp]].
+  - apply IH; assumption.
+Qed.
+
+Lemma donors_In s news x i q :
+  In (x, (i, q)) (bdonors s news) <->
+  In (Some x) news /\ bpar s x = Some q /\ i = slot_index x (bkids s q).
+Proof.
+  unfold bdonors. rewrite in_flat_map. split.
+  - intros [[y|] [Hy Hin]]; [|contradiction].
+    destruct (bpar s y) as [q'|] eqn:E; [|contradiction]. destruct Hin as [Heq|[]].
+    injection Heq as E1 E2 E3. subst. auto.
+  - intros [H1 [H2 ->]]. exists (Some x). split; [exact H1|]. rewrite H2. left. reflexivity.
+Qed.
+
+Lemma give_back_explicit st x i q :
+  bsize (bgive_back st (x, (i, q))) = bsize st
+  /\ (forall z, bpar (bgive_back st (x, (i, q))) z = upd (bpar st) x (Some q) z)
+  /\ (forall q', bkids (bgive_back st (x, (i, q))) q' = upd (bkids st) q (set_nth i (Some x) (bkids st q)) q').
+Proof. repeat split. Qed.
+
+Definition restore_orphan (s : bheap) (st : bheap) (o : option id) : bheap :=
+  match o with
+  | Some x => match bpar s x with None => bset_par st x None | Some _ => st end
+  | None => st
+  end.
+Definition reparent (p : id) (st : bheap) (o : option id) : bheap :=
+  match o with Some c => bset_par st c (Some p) | None => st end.
+
+Lemma children_rollback_unfold s0 s p news :
+  bchildren_rollback s0 s p news
+  = fold_left (reparent p) (bkids s0 p)
+      (bset_kids (fold_left (restore_orphan s0) news (fold_left bgive_back (bdonors s0 news) s)) p (bkids s0 p)).
+Proof. reflexivity. Qed.
+
+Lemma children_rollback_beq s s' (p : id) news : BWF s -> relinked s s' p news ->
+  beq (bchildren_rollback s s' p news) s.
+Proof.
+  intros W [Rs Rp Rkp Rl Rk]. pose proof W as [Hl Hd Hu Ho Hb _].
+  rewrite children_rollback_unfold.
+  set (s1 := fold_left bgive_back (bdonors s news) s').
+  set (s2 := fold_left (restore_orphan s) news s1).
+  set (s3 := bset_kids s2 p (bkids s p)).
+  set (s4 := fold_left (reparent p) (bkids s p) s3).
+  (* sizes *)
+  assert (S1 : bsize s1 = bsize s).
+  { unfold s1. apply (fold_inv bgive_back (fun st => bsize st = bsize s)); [|exact Rs].
+    intros [x [i q]] st _ H. exact H. }
+  assert (S2 : bsize s2 = bsize s).
+  { unfold s2. apply (fold_inv (restore_orphan s) (fun st => bsize st = bsize s)); [|exact S1].
+    intros [x|] st _ H; cbn [restore_orphan]; [destruct (bpar s x)|]; exact H. }
+  assert (S4 : bsize s4 = bsize s).
+  { unfold s4. apply (fold_inv (reparent p) (fun st => bsize st = bsize s)); [|exact S2].
+    intros [x|] st _ H; exact H. }
+  (* stability of "z has its old parent" under every step of the except block *)
+  assert (StG : forall z e st, In e (bdonors s news) -> bpar st z = bpar s z -> bpar (bgive_back st e) z = bpar s z).
+  { intros z [x [i q]] st He H. apply donors_In in He. destruct He as [_ [E _]].
+    destruct (give_back_explicit st x i q) as [_ [P _]]. rewrite P. unfold upd.
+    destruct (Nat.eqb_spec z x) as [->|_]; congruence. }
+  assert (StO : forall z e st, bpar st z = bpar s z -> bpar (restore_orphan s st e) z = bpar s z).
+  { intros z [x|] st H; cbn [restore_orphan]; [|exact H]. destruct (bpar s x) eqn:E; [exact H|].
+    cbn [bpar bset_par]. unfold upd. destruct (Nat.eqb_spec z x) as [->|_]; congruence. }
+  assert (StP : forall z e st, In e (bkids s p) -> bpar st z = bpar s z -> bpar (reparent p st e) z = bpar s z).
+  { intros z [c|] st He H; cbn [reparent]; [|exact H]. apply In_slot in He. destruct He as [i Hi]. apply Hd in Hi.
+    cbn [bpar bset_par]. unfold upd. destruct (Nat.eqb_spec z c) as [->|_]; congruence. }
+  assert (Par : forall z, bpar s4 z = bpar s z).
+  { intros z. destruct (slot_mem z (bkids s p)) eqn:Ek.
+    - (* a previous child of p: re-parented by the last loop *)
+      apply slot_mem_In in Ek. unfold s4.
+      apply (fold_est (reparent p) (fun _ => True) (fun st => bpar st z = bpar s z) (bkids s p) (Some z)).
+      + exact Ek.
+      + intros; exact Logic.I.
+      + intros st _. cbn [reparent bpar bset_par]. rewrite upd_same. apply In_slot in Ek. destruct Ek as [i Hi].
+        symmetry. exact (Hd _ _ _ Hi).
+      + intros e st He _. apply StP. exact He.
+      + exact Logic.I.
+    - unfold s4. apply (fold_inv (reparent p) (fun st => bpar st z = bpar s z)); [intros e st He; apply StP; exact He|].
+      unfold s3. cbn [bpar bset_kids].
+      destruct (slot_mem z news) eqn:En.
+      + apply slot_mem_In in En. destruct (bpar s z) as [q|] eqn:E.
+        * unfold s2. apply (fold_inv (restore_orphan s) (fun st => bpar st z = Some q)).
+          { intros e st _ H. rewrite <- E. apply StO. congruence. }
+          unfold s1.
+          apply (fold_est bgive_back (fun _ => True) (fun st => bpar st z = Some q) (bdonors s news)
+                          (z, (slot_index z (bkids s q), q))).
+          -- apply donors_In. auto.
+          -- intros; exact Logic.I.
+          -- intros st _. destruct (give_back_explicit st z (slot_index z (bkids s q)) q) as [_ [P _]].
+             rewrite P. apply upd_same.
+          -- intros e st He _ H. rewrite <- E. apply StG; [exact He|congruence].
+          -- exact Logic.I.
+        * unfold s2.
+          apply (fold_est (restore_orphan s) (fun _ => True) (fun st => bpar st z = None) news (Some z)).
+          -- exact En.
+          -- intros; exact Logic.I.
+          -- intros st _. cbn [restore_orphan]. rewrite E. cbn [bpar bset_par]. apply upd_same.
+          -- intros e st _ _ H. rewrite <- E. apply StO. congruence.
+          -- exact Logic.I.
+      + unfold s2. apply (fold_inv (restore_orphan s) (fun st => bpar st z = bpar s z)); [intros e st _; apply StO|].
+        unfold s1. apply (fold_inv bgive_back (fun st => bpar st z = bpar s z)); [intros e st He; apply StG; exact He|].
+        rewrite Rp, En, Ek. reflexivity. }
+  (* slot lists: only the give-back loop and `self.__children = current_children` write them *)
+  assert (KO : forall q e st, bkids (restore_orphan s st e) q = bkids st q).
+  { intros q [x|] st; cbn [restore_orphan]; [destruct (bpar s x)|]; reflexivity. }
+  assert (KP : forall q e st, bkids (reparent p st e) q = bkids st q).
+  { intros q [x|] st; reflexivity. }
+  assert (K43 : forall q, bkids s4 q = bkids s3 q).
+  { intros q. unfold s4. apply (fold_inv (reparent p) (fun st => bkids st q = bkids s3 q)); [|reflexivity].
+    intros e st _ H. rewrite KP. exact H. }
+  assert (K21 : forall q, bkids s2 q = bkids s1 q).
+  { intros q. unfold s2. apply (fold_inv (restore_orphan s) (fun st => bkids st q = bkids s1 q)); [|reflexivity].
+    intros e st _ H. rewrite KO. exact H. }
+  split; [exact S4|]. split; [exact Par|].
+  intros q. rewrite K43. unfold s3. cbn [bkids bset_kids]. unfold upd.
+  destruct (Nat.eqb_spec q p) as [->|Hq]; [reflexivity|]. rewrite K21.
+  (* q <> p: every slot emptied by the stealing loop is refilled by the give-back loop *)
+  assert (Len : length (bkids s1 q) = length (bkids s q)).
+  { unfold s1. apply (fold_inv bgive_back (fun st => length (bkids st q) = length (bkids s q))); [|apply Rl; exact Hq].
+    intros [x [i q']] st _ H. destruct (give_back_explicit st x i q') as [_ [_ K]]. rewrite K. unfold upd.
+    destruct (Nat.eqb_spec q q') as [<-|_]; [rewrite set_nth_length|]; exact H. }
+  apply slot_ext; [exact Len|]. intros j.
+  set (I := fun st => length (bkids st q) = length (bkids s q)).
+  assert (II : forall e st, In e (bdonors s news) -> I st -> I (bgive_back st e)).
+  { intros [x [i q']] st _ H. unfold I in *. destruct (give_back_explicit st x i q') as [_ [_ K]]. rewrite K. unfold upd.
+    destruct (Nat.eqb_spec q q') as [<-|_]; [rewrite set_nth_length|]; exact H. }
+  assert (Stab : forall e st, In e (bdonors s news) -> I st ->
+            slot (bkids st q) j = slot (bkids s q) j -> slot (bkids (bgive_back st e) q) j = slot (bkids s q) j).
+  { intros [x [i q']] st He HI H. apply donors_In in He. destruct He as [_ [E ->]].
+    destruct (give_back_explicit st x (slot_index x (bkids s q')) q') as [_ [_ K]]. rewrite K. unfold upd.
+    destruct (Nat.eqb_spec q q') as [<-|_]; [|exact H]. rewrite slot_set_nth.
+    destruct (Nat.eqb_spec j (slot_index x (bkids s q))) as [->|_]; [|exact H].
+    destruct (Hu _ _ E) as [k Hk]. destruct (slot_index_spec x _ (slot_In _ _ _ Hk)) as [Hlt Hs].
+    unfold I in HI. rewrite HI. apply Nat.ltb_lt in Hlt. rewrite Hlt. symmetry. exact Hs. }
+  destruct (slot (bkids s q) j) as [z|] eqn:Ez.
+  2:{ unfold s1. apply (fold_inv bgive_back (fun st => I st /\ slot (bkids st q) j = None)).
+      - intros e st He [H1 H2]. split; [apply II; assumption|apply Stab; assumption].
+      - split; [apply Rl; exact Hq|]. rewrite Rk, Ez by exact Hq. reflexivity. }
+  destruct (slot_mem z news) eqn:En.
+  - apply slot_mem_In in En. pose proof (Hd _ _ _ Ez) as Ezq. unfold s1.
+    apply (fold_est bgive_back I (fun st => slot (bkids st q) j = Some z) (bdonors s news)
+                    (z, (slot_index z (bkids s q), q))).
+    + apply donors_In. auto.
+    + exact II.
+    + intros st HI. destruct (give_back_explicit st z (slot_index z (bkids s q)) q) as [_ [_ K]]. rewrite K, upd_same.
+      rewrite slot_set_nth, (slot_index_once _ _ _ (Ho q) Ez), Nat.eqb_refl. unfold I in HI. rewrite HI.
+      pose proof (slot_lt _ _ _ Ez) as Hlt. apply Nat.ltb_lt in Hlt. rewrite Hlt. reflexivity.
+    + intros e st He HI H. apply Stab; assumption.
+    + apply Rl. exact Hq.
+  - unfold s1. apply (fold_inv bgive_back (fun st => I st /\ slot (bkids st q) j = Some z)).
+    + intros e st He [H1 H2]. split; [apply II; assumption|apply Stab; assumption].
+    + split; [apply Rl; exact Hq|]. rewrite Rk, Ez by exact Hq. cbn [rmset]. rewrite En. reflexivity.
+Qed.
+
+(* ------------------------------------------------------------------------------------------ *)
+(* the children setter as a whole *)
+
+Definition norm_args (args : list arg) : list arg :=
+  match args with [] => [ANone; ANone] | _ => args end.
+
+Inductive children_outcome (cfg : config) (ft : fault) (s : bheap) (p : id) (cont : container)
+          (args : list arg) : Prop :=
+| CO_rejected : fst (bset_children cfg ft s p cont args) = s ->
+                snd (bset_children cfg ft s p cont args) <> Ok ->
+                children_outcome cfg ft s p cont args
+| CO_rolled_back a1 a2 :
+    norm_args args = [a1; a2] -> bcheck_children s p [a1; a2] [] = None ->
+    bset_children cfg ft s p cont args
+    = (bchildren_rollback s (bassign_children s p [slot_of_arg a1; slot_of_arg a2]) p
+                          [slot_of_arg a1; slot_of_arg a2], Err TreeError) ->
+    children_outcome cfg ft s p cont args
+| CO_accepted a1 a2 :
+    norm_args args = [a1; a2] -> bcheck_children s p [a1; a2] [] = None ->
+    bset_children cfg ft s p cont args = (bassign_children s p [slot_of_arg a1; slot_of_arg a2], Ok) ->
+    children_outcome cfg ft s p cont args.
+
+Definition sc_tail (cfg : config) (ft : fault) (s : bheap) (p : id) (a1 a2 : arg) : bheap * outcome :=
+  match bcheck_children s p [a1; a2] [] with
+  | Some e => (s, Err (if assertions cfg then e else Unmodelled))
+  | None =>
+      if fault_eqb ft PreFail then (s, Err HookRaw) else
+      if fault_eqb ft PostFail
+      then (bchildren_rollback s (bassign_children s p [slot_of_arg a1; slot_of_arg a2]) p
+                               [slot_of_arg a1; slot_of_arg a2], Err TreeError)
+      else (bassign_children s p [slot_of_arg a1; slot_of_arg a2], Ok)
+  end.
+
+Lemma set_children_inv cfg ft s p cont args : children_outcome cfg ft s p cont args.
+Proof.
+  assert (Hrej : forall o, o <> Ok -> bset_children cfg ft s p cont args = (s, o) ->
+                           children_outcome cfg ft s p cont args).
+  { intros o Ho E. apply CO_rejected; rewrite E; [reflexivity|exact Ho]. }
+  assert (Htail : forall a1 a2, norm_args args = [a1; a2] ->
+                    bset_children cfg ft s p cont args = sc_tail cfg ft s p a1 a2 ->
+                    children_outcome cfg ft s p cont args).
+  { intros a1 a2 EN E. unfold sc_tail in E.
+    destruct (bcheck_children s p [a1; a2] []) as [e|] eqn:EC; [eapply Hrej; [|exact E]; discriminate|].
+    destruct (fault_eqb ft PreFail); [eapply Hrej; [|exact E]; discriminate|].
+    destruct (fault_eqb ft PostFail); [eapply CO_rolled_back|eapply CO_accepted]; eauto. }
+  destruct cont.
+  4:{ apply (Hrej (Err TypeError)); [discriminate|reflexivity]. }
+  all: destruct (norm_args args) as [|a1 [|a2 [|a3 t]]] eqn:EN.
+  all: try (apply (Hrej (Err ValueError)); [discriminate|];
+            unfold bset_children; fold (norm_args args); rewrite EN; reflexivity).
+  - apply (Htail a1 a2 eq_refl). unfold bset_children. fold (norm_args args). rewrite EN. reflexivity.
+  - apply (Htail a1 a2 eq_refl). unfold bset_children. fold (norm_args args). rewrite EN. reflexivity.
+  - destruct args as [|a0 t0].
+    + apply (Htail a1 a2 eq_refl). unfold bset_children. fold (norm_args (@nil arg)). rewrite EN. reflexivity.
+    + apply (Hrej (Err Unmodelled)); [discriminate|].
+      unfold bset_children. fold (norm_args (a0 :: t0)). rewrite EN. reflexivity.
+Qed.
+
+Lemma norm_args_range s args :
+  forallb (barg_in_range s) args = true -> forallb (barg_in_range s) (norm_args args) = true.
+Proof. destruct args; [reflexivity|auto]. Qed.
+
+Lemma set_children_sound cfg ft s (p : id) cont args : BWF s -> p < bsize s ->
+  forallb (barg_in_range s) args = true ->
+  (snd (bset_children cfg ft s p cont args) <> Ok -> beq (fst (bset_children cfg ft s p cont args)) s)
+  /\ BWF (fst (bset_children cfg ft s p cont args))
+  /\ bsize (fst (bset_children cfg ft s p cont args)) = bsize s.
+Proof.
+  intros W Hp Hr. apply norm_args_range in Hr.
+  destruct (set_children_inv cfg ft s p cont args) as [E1 E2|a1 a2 EN EC E|a1 a2 EN EC E].
+  - rewrite E1. split; [intros _; apply beq_refl|]. split; [exact W|reflexivity].
+  - rewrite EN in Hr. cbn [forallb] in Hr. apply andb_true_iff in Hr. destruct Hr as [R1 R2].
+    apply andb_true_iff in R2. destruct R2 as [R2 _].
+    destruct (check_valid s p a1 a2 W Hp R1 R2 EC) as [V Hab].
+    pose proof (assign_relinked s p _ _ W Hp Hab) as R.
+    pose proof (children_rollback_beq s _ p _ W R) as Hroll.
+    rewrite E. cbn [fst snd]. split; [intros _; exact Hroll|].
+    split; [apply (BWF_beq s); [exact W|apply beq_sym, Hroll]|apply Hroll].
+  - rewrite EN in Hr. cbn [forallb] in Hr. apply andb_true_iff in Hr. destruct Hr as [R1 R2].
+    apply andb_true_iff in R2. destruct R2 as [R2 _].
+    destruct (check_valid s p a1 a2 W Hp R1 R2 EC) as [V Hab].
+    pose proof (assign_relinked s p _ _ W Hp Hab) as R.
+    rewrite E. cbn [fst snd]. split; [congruence|]. split; [exact (relink_BWF _ _ _ _ W V R)|apply R].
+Qed.
+
+Lemma set_parent_size cfg ft s (c : id) a : BWF s -> c < bsize s -> barg_in_range s a = true ->
+  bsize (fst (bset_parent cfg ft s c a)) = bsize s.
+Proof.
+  intros W Hc Ha. destruct (set_parent_sound cfg ft s c a W Hc Ha) as [Hat _].
+  destruct (snd (bset_parent cfg ft s c a)) eqn:E.
+  2:{ apply Hat. discriminate. }
+  clear Hat. revert E. unfold bset_parent. destruct a as [p| |]; cbv zeta.
+  - destruct (bparent_loop s c (Some p)); [discriminate|].
+    destruct (fault_eqb ft PreFail); [discriminate|]. rewrite (bcorrupted_false s c W).
+    destruct (bfull (bdetach s c) (Some p)) eqn:EF; [discriminate|].
+    destruct (fault_eqb ft PostFail); [discriminate|]. intros _. cbn [fst].
+    destruct (bfull_false _ _ EF) as [i Ei]. rewrite (attach_state s c p i Ei). apply detach_size.
+  - cbn [bparent_loop bfull]. destruct (fault_eqb ft PreFail); [discriminate|]. rewrite (bcorrupted_false s c W).
+    destruct (fault_eqb ft PostFail); [discriminate|]. intros _. apply detach_size.
+  - discriminate.
+Qed.
+
+(* ------------------------------------------------------------------------------------------ *)
+(* left / right setters *)
+
+Lemma slot_range s (p : id) i x : BWF s -> slot (bkids s p) i = Some x -> x < bsize s.
+Proof. intros W H. apply (bw_down s W) in H. apply (bw_bound s W) in H. tauto. Qed.
+
+Lemma nth_error_slot (l : list (option id)) i o : nth_error l i = Some o -> slot l i = o.
+Proof. intros H. unfold slot. exact (nth_error_nth l i None H). Qed.
+
+Lemma arg_of_slot_range s (p : id) i o : BWF s -> nth_error (bkids s p) i = Some o ->
+  barg_in_range s (arg_of_slot o) = true.
+Proof.
+  intros W H. apply nth_error_slot in H. destruct o as [x|]; [|reflexivity].
+  cbn [arg_of_slot barg_in_range]. apply Nat.ltb_lt. exact (slot_range s p i x W H).
+Qed.
+
+Lemma set_left_sound cfg ft s (p : id) a : BWF s -> p < bsize s -> barg_in_range s a = true ->
+  (snd (bset_left cfg ft s p a) <> Ok -> beq (fst (bset_left cfg ft s p a)) s)
+  /\ BWF (fst (bset_left cfg ft s p a)) /\ bsize (fst (bset_left cfg ft s p a)) = bsize s.
+Proof.
+  intros W Hp Ha. unfold bset_left, right_of. destruct (nth_error (bkids s p) 1) as [r|] eqn:E.
+  - apply set_children_sound; [exact W|exact Hp|]. cbn [forallb]. rewrite Ha, (arg_of_slot_range s p 1 r W E). reflexivity.
+  - cbn [fst snd]. split; [intros _; apply beq_refl|]. split; [exact W|reflexivity].
+Qed.
+
+Lemma set_right_sound cfg ft s (p : id) a : BWF s -> p < bsize s -> barg_in_range s a = true ->
+  (snd (bset_right cfg ft s p a) <> Ok -> beq (fst (bset_right cfg ft s p a)) s)
+  /\ BWF (fst (bset_right cfg ft s p a)) /\ bsize (fst (bset_right cfg ft s p a)) = bsize s.
+Proof.
+  intros W Hp Ha. unfold bset_right, left_of. destruct (nth_error (bkids s p) 0) as [l|] eqn:E.
+  - apply set_children_sound; [exact W|exact Hp|]. cbn [forallb]. rewrite Ha, (arg_of_slot_range s p 0 l W E). reflexivity.
+  - cbn [fst snd]. split; [intros _; apply beq_refl|]. split; [exact W|reflexivity].
+Qed.
+
+(* ------------------------------------------------------------------------------------------ *)
+(* sort *)
+
+Lemma py_sort_two key rev (c d : id) :
+  py_sort key rev [c; d] = [c; d] \/ py_sort key rev [c; d] = [d; c].
+Proof.
+  unfold py_sort, stable_sort. destruct rev; cbn [List.rev app fold_right ins_key].
+  - destruct (Nat.leb (key d) (key c)); cbn [List.rev app]; auto.
+  - destruct (Nat.leb (key c) (key d)); auto.
+Qed.
+
+Lemma sort_relinked s (p : id) key rev : BWF s -> p < bsize s ->
+  beq (bsort s p key rev) s
+  \/ exists c d, bkids s p = [Some c; Some d]
+                 /\ relinked s (bsort s p key rev) p [Some d; Some c] /\ valid_news s p [Some d; Some c].
+Proof.
+  intros W Hp. unfold bsort. destruct (len2 _ (bw_len s W p)) as [l [r E]]. rewrite E.
+  destruct l as [c|]; destruct r as [d|]; cbn [somes length Nat.eqb]; try (left; apply beq_refl).
+  destruct (py_sort_two key rev c d) as [-> | ->]; cbn [map].
+  - left. split; [reflexivity|]. split; [reflexivity|]. intros x. cbn [bkids bset_kids]. unfold upd.
+    destruct (Nat.eqb_spec x p) as [->|_]; [symmetry; exact E|reflexivity].
+  - right. exists c, d. split; [reflexivity|].
+    assert (Hsub : forall x, In (Some x) [Some d; Some c] -> In (Some x) (bkids s p)).
+    { rewrite E. intros x [H|[H|[]]]; [right; left|left]; exact H. }
+    split.
+    + apply relinked_local; try assumption; try reflexivity.
+      * intros x. cbn [bpar bset_kids]. rewrite E. cbn [slot_mem existsb].
+        destruct (Nat.eqb x c); destruct (Nat.eqb x d); reflexivity.
+      * cbn [bkids bset_kids]. apply upd_same.
+      * intros q Hq. cbn [bkids bset_kids]. apply upd_other. exact Hq.
+    + apply valid_news_local; try assumption; try reflexivity.
+      intros i j x. rewrite !slot2. pose proof (bw_once s W p) as Ho. rewrite E in Ho.
+      destruct i as [|[|i]]; destruct j as [|[|j]]; try discriminate; try reflexivity; intros H1 H2.
+      * specialize (Ho 1 0 x). rewrite !slot2 in Ho. specialize (Ho H1 H2). discriminate.
+      * specialize (Ho 0 1 x). rewrite !slot2 in Ho. specialize (Ho H1 H2). discriminate.
+Qed.
+
+Lemma sort_BWF s (p : id) key rev : BWF s -> p < bsize s -> BWF (bsort s p key rev).
+Proof.
+  intros W Hp. destruct (sort_relinked s p key rev W Hp) as [H|[c [d [_ [R V]]]]].
+  - apply (BWF_beq s); [exact W|apply beq_sym, H].
+  - exact (relink_BWF _ _ _ _ W V R).
+Qed.
+
+Lemma sort_size s (p : id) key rev : bsize (bsort s p key rev) = bsize s.
+Proof. unfold bsort. destruct (Nat.eqb _ 2); reflexivity. Qed.
+
+(* ------------------------------------------------------------------------------------------ *)
+(* extend, constructor, step, histories *)
+
+Lemma extend_sound cfg (p : id) : forall cs fts s, BWF s -> p < bsize s ->
+  forallb (bin_range s) cs = true ->
+  BWF (fst (bextend_loop cfg s p cs fts)) /\ bsize (fst (bextend_loop cfg s p cs fts)) = bsize s.
+Proof.
+  induction cs as [|c t IH]; intros fts s W Hp Hr; cbn [bextend_loop]; [split; [exact W|reflexivity]|].
+  cbn [forallb] in Hr. apply andb_true_iff in Hr. destruct Hr as [Hc Ht]. apply Nat.ltb_lt in Hc.
+  assert (Ha : barg_in_range s (ANode p) = true) by (apply Nat.ltb_lt; exact Hp).
+  destruct (set_parent_sound cfg (hd NoFault fts) s c (ANode p) W Hc Ha) as [_ W1].
+  pose proof (set_parent_size cfg (hd NoFault fts) s c (ANode p) W Hc Ha) as S1.
+  destruct (bset_parent cfg (hd NoFault fts) s c (ANode p)) as [s1 o]. cbn [fst] in *.
+  destruct o; [|split; assumption].
+  destruct (IH (tl fts) s1 W1) as [W2 S2].
+  - rewrite S1. exact Hp.
+  - unfold bin_range in *. rewrite S1. exact Ht.
+  - split; [exact W2|congruence].
+Qed.
+
+Lemma alloc_BWF s : BWF s -> BWF (balloc s).
+Proof.
+  intros [Hl Hd Hu Ho Hb [r Hr]].
+  assert (Hfresh : forall c q, bpar s c = Some q -> c <> bsize s /\ q <> bsize s).
+  { intros c q H. destruct (Hb _ _ H). lia. }
+  constructor; cbn [balloc bsize bpar bkids].
+  - intros p. unfold upd. destruct (Nat.eqb p (bsize s)); [reflexivity|apply Hl].
+  - intros p i c. unfold upd at 1. destruct (Nat.eqb_spec p (bsize s)) as [->|Hp].
+    + rewrite slot2. destruct i as [|[|i]]; discriminate.
+    + intros H. pose proof (Hd _ _ _ H) as E. destruct (Hfresh _ _ E). rewrite upd_other; assumption.
+  - intros c p. unfold upd at 1. destruct (Nat.eqb_spec c (bsize s)) as [->|Hc]; [discriminate|].
+    intros H. destruct (Hfresh _ _ H). rewrite upd_other by assumption. apply Hu. exact H.
+  - intros p. unfold upd. destruct (Nat.eqb p (bsize s)); [|apply Ho].
+    intros i j x. rewrite slot2. destruct i as [|[|i]]; discriminate.
+  - intros c p. unfold upd. destruct (Nat.eqb_spec c (bsize s)) as [->|Hc]; [discriminate|].
+    intros H. destruct (Hb _ _ H). lia.
+  - exists r. intros c p. unfold upd. destruct (Nat.eqb_spec c (bsize s)) as [->|Hc]; [discriminate|apply Hr].
+Qed.
+
+Lemma arg_range_mono s s' a : bsize s <= bsize s' -> barg_in_range s a = true -> barg_in_range s' a = true.
+Proof.
+  intros Hle. destruct a as [x| |]; cbn [barg_in_range]; auto. unfold bin_range.
+  intros H. apply Nat.ltb_lt in H. apply Nat.ltb_lt. lia.
+Qed.
+
+Lemma new_BWF cfg s l r par ch fp fc : BWF s ->
+  barg_in_range s l = true -> barg_in_range s r = true -> barg_in_range s par = true ->
+  forallb (barg_in_range s) ch = true ->
+  BWF (fst (bnew cfg s l r par ch fp fc)).
+Proof.
+  intros W Rl Rr Rp Rch. unfold bnew. cbv zeta.
+  pose proof (alloc_BWF s W) as W0.
+  assert (Hx : bsize s < bsize (balloc s)) by (cbn [balloc bsize]; lia).
+  match goal with |- context [if ?b then _ else _] => destruct b end; [exact W0|].
+  assert (Rp0 : barg_in_range (balloc s) par = true) by (eapply arg_range_mono; [|exact Rp]; lia).
+  destruct (set_parent_sound cfg fp (balloc s) (bsize s) par W0 Hx Rp0) as [_ W1].
+  pose proof (set_parent_size cfg fp (balloc s) (bsize s) par W0 Hx Rp0) as S1.
+  destruct (bset_parent cfg fp (balloc s) (bsize s) par) as [s1 o]. cbn [fst] in *.
+  destruct o; [|exact W1].
+  apply set_children_sound; [exact W1|rewrite S1; exact Hx|].
+  assert (Hm : forall a, barg_in_range s a = true -> barg_in_range s1 a = true).
+  { intros a. apply arg_range_mono. rewrite S1. lia. }
+  destruct ch as [|c0 t0].
+  - cbn [forallb]. rewrite (Hm _ Rl), (Hm _ Rr). reflexivity.
+  - apply forallb_forall. intros a Ha. apply Hm. rewrite forallb_forall in Rch. apply Rch. exact Ha.
+Qed.
+
+Theorem bstep_BWF cfg s o : BWF s -> BWF (fst (bstep cfg s o)).
+Proof.
+  intros W. unfold bstep. destruct (bop_in_range s o) eqn:Er; cbn [negb]; [|exact W].
+  destruct o; cbn [bop_in_range] in Er; repeat (apply andb_true_iff in Er; destruct Er as [Er ?]);
+    unfold bin_range in *; try (apply Nat.ltb_lt in Er).
+  - apply set_parent_sound; assumption.
+  - apply set_children_sound; assumption.
+  - apply set_left_sound; assumption.
+  - apply set_right_sound; assumption.
+  - cbn [fst]. apply del_BWF; assumption.
+  - cbn [fst]. apply sort_BWF; assumption.
+  - apply extend_sound; assumption.
+  - apply new_BWF; assumption.
+Qed.
+
+Theorem brun_BWF cfg ops : forall s, BWF s -> BWF (brun cfg s ops).
+Proof.
+  unfold brun. induction ops as [|o t IH]; intros s W; [exact W|]. cbn [fold_left].
+  apply IH, bstep_BWF, W.
+Qed.
+
+Theorem btrace_BWF cfg ops : forall s, BWF s -> Forall (fun r => BWF (fst r)) (btrace cfg s ops).
+Proof.
+  induction ops as [|o t IH]; intros s W; cbn [btrace]; constructor.
+  - apply bstep_BWF, W.
+  - apply IH, bstep_BWF, W.
+Qed.
+
+(* ------------------------------------------------------------------------------------------ *)
+(* C02, BinaryNode share: an operation that is one assignment and does not succeed leaves every
+   parent link and every slot list as it was *)
+
+Definition atomic_op (o : bop) : bool :=
+  match o with BExtend _ _ _ | BNew _ _ _ _ _ _ => false | _ => true end.
+
+Theorem binary_atomic cfg s o : BWF s -> atomic_op o = true ->
+  snd (bstep cfg s o) <> Ok -> beq (fst (bstep cfg s o)) s.
+Proof.
+  intros W Hat. unfold bstep. destruct (bop_in_range s o) eqn:Er; cbn [negb]; [|intros _; apply beq_refl].
+  destruct o; try discriminate; cbn [bop_in_range] in Er;
+    repeat (apply andb_true_iff in Er; destruct Er as [Er ?]);
+    unfold bin_range in *; try (apply Nat.ltb_lt in Er).
+  - apply set_parent_sound; assumption.
+  - apply set_children_sound; assumption.
+  - apply set_left_sound; assumption.
+  - apply set_right_sound; assumption.
+  - cbn [snd]. congruence.
+  - cbn [snd]. congruence.
+Qed.
+
+(* ------------------------------------------------------------------------------------------ *)
+(* C20, BinaryNode share: the assertion switch is consulted only on the rejecting branches — an
+   operation that is accepted under one setting is accepted under the other, with the same state *)
+
+Lemma set_parent_cfg cfg cfg' ft s c a :
+  snd (bset_parent cfg ft s c a) = Ok -> bset_parent cfg' ft s c a = bset_parent cfg ft s c a.
+Proof.
+  unfold bset_parent. destruct a as [p| |]; cbv zeta; try discriminate.
+  - destruct (bparent_loop s c (Some p)); [discriminate|]. reflexivity.
+  - destruct (bparent_loop s c None); [discriminate|]. reflexivity.
+Qed.
+
+Lemma set_children_cfg cfg cfg' ft s p cont args :
+  snd (bset_children cfg ft s p cont args) = Ok ->
+  bset_children cfg' ft s p cont args = bset_children cfg ft s p cont args.
+Proof.
+  unfold bset_children. destruct cont; try discriminate; cbv zeta.
+  all: match goal with |- context [negb ?b] => destruct b end; cbn [negb]; try discriminate.
+  1,2: destruct (bcheck_children s p _ []); [discriminate|reflexivity].
+  destruct args; [|discriminate].
+  destruct (bcheck_children s p _ []); [discriminate|reflexivity].
+Qed.
+
+Lemma extend_cfg cfg cfg' p : forall cs fts s,
+  snd (bextend_loop cfg s p cs fts) = Ok -> bextend_loop cfg' s p cs fts = bextend_loop cfg s p cs fts.
+Proof.
+  induction cs as [|c t IH]; intros fts s; cbn [bextend_loop]; [reflexivity|].
+  destruct (bset_parent cfg (hd NoFault fts) s c (ANode p)) as [s1 o] eqn:E.
+  destruct o; [|discriminate]. intros H.
+  rewrite (set_parent_cfg cfg cfg'), E by (rewrite E; reflexivity). apply IH. exact H.
+Qed.
+
+Theorem binary_assert_irrelevant cfg cfg' s o :
+  snd (bstep cfg s o) = Ok -> bstep cfg' s o = bstep cfg s o.
+Proof.
+  unfold bstep. destruct (bop_in_range s o); cbn [negb]; [|discriminate].
+  destruct o; try reflexivity.
+  - apply set_parent_cfg.
+  - apply set_children_cfg.
+  - unfold bset_left. destruct (right_of s p); [apply set_children_cfg|discriminate].
+  - unfold bset_right. destruct (left_of s p); [apply set_children_cfg|discriminate].
+  - apply extend_cfg.
+  - unfold bnew. cbv zeta. match goal with |- context [if ?b then _ else _] => destruct b end; [discriminate|].
+    destruct (bset_parent cfg fp (balloc s) (bsize s) par) as [s1 o] eqn:E.
+    destruct o; [|discriminate]. intros H.
+    rewrite (set_parent_cfg cfg cfg'), E by (rewrite E; reflexivity). apply set_children_cfg. exact H.
+Qed.
+
+(* the form used for C20: accepted with the checks on => accepted with the checks off, same state *)
+Corollary binary_assert_off s o s' :
+  bstep {| assertions := true; is_node := true |} s o = (s', Ok) ->
+  bstep {| assertions := false; is_node := true |} s o = (s', Ok).
+Proof. intros H. rewrite <- H. apply binary_assert_irrelevant. rewrite H. reflexivity. Qed.
+
+(* with the switch on, a rejection by a guard leaves the state untouched: binary_atomic *)
+
+(* ========================================================================================== *)
+(* 4. the boolean predicates of Spec/PC11.v hold of the model *)
+
+Lemma boid_eqb_eq a b : boid_eqb a b = true <-> a = b.
+Proof.
+  unfold boid_eqb, opt_eqb. destruct a as [x|]; destruct b as [y|]; try (split; [discriminate|congruence]).
+  - rewrite Nat.eqb_eq. split; congruence.
+  - split; reflexivity.
+Qed.
+
+Lemma boid_eqb_refl a : boid_eqb a a = true.
+Proof. apply boid_eqb_eq. reflexivity. Qed.
+
+Lemma bslots_eqb_refl l : bslots_eqb l l = true.
+Proof. induction l as [|h t IH]; [reflexivity|]. cbn. rewrite boid_eqb_refl. exact IH. Qed.
+
+Lemma forallb_bids n (f : id -> bool) : (forall x, x < n -> f x = true) -> forallb f (bids n) = true.
+Proof. intros H. apply forallb_forall. intros x Hx. apply in_seq in Hx. apply H. lia. Qed.
+
+Lemma occ_absent c l : ~ In (Some c) l -> occ c l = 0.
+Proof.
+  induction l as [|[y|] t IH]; intros H; cbn [occ]; [reflexivity| |].
+  - destruct (Nat.eqb_spec c y) as [->|_]; [exfalso; apply H; left; reflexivity|].
+    apply IH. intros Hin. apply H. right. exact Hin.
+  - apply IH. intros Hin. apply H. right. exact Hin.
+Qed.
+
+Lemma occ_two a b c : once [a; b] -> In (Some c) [a; b] -> occ c [a; b] = 1.
+Proof.
+  intros Ho Hin. cbn [occ].
+  assert (Hboth : a = Some c -> b = Some c -> False).
+  { intros -> ->. specialize (Ho 0 1 c eq_refl eq_refl). discriminate. }
+  destruct a as [x|]; destruct b as [y|]; cbn [occ].
+  - destruct (Nat.eqb_spec c x) as [Ex|Hx]; destruct (Nat.eqb_spec c y) as [Ey|Hy]; try reflexivity.
+    + exfalso. subst. apply Hboth; reflexivity.
+    + exfalso. destruct Hin as [H|[H|[]]]; congruence.
+  - destruct (Nat.eqb_spec c x) as [->|Hx]; [reflexivity|]. exfalso. destruct Hin as [H|[H|[]]]; congruence.
+  - destruct (Nat.eqb_spec c y) as [->|Hy]; [reflexivity|]. exfalso. destruct Hin as [H|[H|[]]]; congruence.
+  - exfalso. destruct Hin as [H|[H|[]]]; discriminate.
+Qed.
+
+Lemma breaches_len s : forall fuel c, length (banc s (S fuel) c) <= fuel -> breaches_root s fuel c = true.
+Proof.
+  induction fuel as [|f IH]; intros c H.
+  - cbn [banc] in H. cbn [breaches_root]. destruct (bpar s c); [cbn in H; lia|reflexivity].
+  - cbn [breaches_root]. change (banc s (S (S f)) c) with
+      (match bpar s c with None => [] | Some p => p :: banc s (S f) p end) in H.
+    destruct (bpar s c) as [p|]; [|reflexivity]. apply IH. cbn [length] in H. lia.
+Qed.
+
+Theorem BWF_bwf_b s : BWF s -> bwf_b s = true.
+Proof.
+  intros W. pose proof W as [Hl Hd Hu Ho Hb [r Hr]]. unfold bwf_b. apply andb_true_iff. split.
+  - apply forallb_bids. intros p _. apply andb_true_iff. split; [rewrite Hl; reflexivity|].
+    apply forallb_forall. intros [c|] Hin; [|reflexivity].
+    pose proof Hin as Hin'. apply In_slot in Hin'. destruct Hin' as [i Hi]. pose proof (Hd _ _ _ Hi) as E.
+    destruct (Hb _ _ E) as [Hc _]. apply Nat.ltb_lt in Hc. rewrite Hc, E, boid_eqb_refl. cbn [andb].
+    destruct (len2 _ (Hl p)) as [a [b Eab]]. pose proof (Ho p) as Hop. rewrite Eab in *.
+    rewrite (occ_two a b c Hop Hin). reflexivity.
+  - apply forallb_bids. intros c _. apply andb_true_iff. split.
+    + destruct (bpar s c) as [p|] eqn:E; [|reflexivity]. destruct (Hb _ _ E) as [_ Hp].
+      apply Nat.ltb_lt in Hp. rewrite Hp. cbn [andb]. destruct (Hu _ _ E) as [i Hi]. apply slot_In in Hi.
+      destruct (len2 _ (Hl p)) as [a [b Eab]]. pose proof (Ho p) as Hop. rewrite Eab in *.
+      rewrite (occ_two a b c Hop Hi). reflexivity.
+    + apply breaches_len. rewrite (banc_fix s r Hr Hb (bsize s) c (le_n _)).
+      exact (banc_len_le s r Hr Hb c).
+Qed.
+
+(* the spec's ancestor test is the model's *)
+Lemma is_anc_b_memb s a : forall fuel x, is_anc_b s fuel a x = memb a (banc s fuel x).
+Proof.
+  induction fuel as [|f IH]; intros x; [reflexivity|]. cbn [is_anc_b banc].
+  destruct (bpar s x) as [q|]; [|reflexivity]. cbn [memb existsb]. rewrite IH, (Nat.eqb_sym q a). reflexivity.
+Qed.
+
+(* ------------------------------------------------------------------------------------------ *)
+(* "deleting children empties both slots" *)
+
+Theorem del_empties_sound cfg s o : BWF s -> bop_in_range s o = true ->
+  del_empties_b s o (fst (bstep cfg s o)) (is_ok (snd (bstep cfg s o))) = true.
+Proof.
+  intros W Hr. destruct o; try reflexivity. unfold bstep. rewrite Hr. cbn [negb fst snd is_ok del_empties_b andb].
+  destruct (len2 _ (bw_len s W p)) as [l [r E]]. destruct (del_state s p l r W E) as [_ [P K]].
+  rewrite K, Nat.eqb_refl. cbn [bslots_eqb list_eqb boid_eqb opt_eqb andb].
+  apply forallb_forall. intros [x|] Hin; [|reflexivity]. rewrite P, E in *.
+  apply slot_mem_In in Hin. rewrite Hin. reflexivity.
+Qed.
+
+(* ------------------------------------------------------------------------------------------ *)
+(* "... or is refused when both are taken" — and only then, loops and failing hooks apart *)
+
+Lemma two_slots_eq (l : list (option id)) a b : length l = 2 -> slot l 0 = a -> slot l 1 = b -> l = [a; b].
+Proof.
+  intros Hl H0 H1. destruct (len2 _ Hl) as [x [y ->]]. rewrite slot2 in H0, H1. congruence.
+Qed.
+
+Definition takenb (c : id) (o : option id) : bool :=
+  match o with Some x => negb (Nat.eqb x c) | None => false end.
+
+Lemma detach_full s (c p : id) : BWF s ->
+  bfull (bdetach s c) (Some p) = takenb c (slot (bkids s p) 0) && takenb c (slot (bkids s p) 1).
+Proof.
+  intros W. destruct (detach_kids s c p W) as [Hlen Hs].
+  assert (Hl1 : length (bkids (bdetach s c) p) = 2) by (rewrite Hlen; apply (bw_len s W)).
+  assert (Htk : forall j, takenb c (slot (bkids s p) j) = true <-> slot (bkids (bdetach s c) p) j <> None).
+  { intros j. rewrite Hs. unfold takenb, rm. destruct (slot (bkids s p) j) as [x|]; [|split; [discriminate|congruence]].
+    rewrite (Nat.eqb_sym x c). destruct (Nat.eqb c x); cbn [negb]; split; congruence. }
+  unfold bfull. destruct (first_empty (bkids (bdetach s c) p)) as [i|] eqn:E.
+  - destruct (first_empty_some _ _ E) as [Hi [Hn _]]. rewrite Hl1 in Hi. symmetry. apply andb_false_iff.
+    destruct i as [|[|i]]; [left|right|lia].
+    + destruct (takenb c (slot (bkids s p) 0)) eqn:T; [apply Htk in T; congruence|reflexivity].
+    + destruct (takenb c (slot (bkids s p) 1)) eqn:T; [apply Htk in T; congruence|reflexivity].
+  - pose proof (first_empty_none _ E) as Hn. rewrite Hl1 in Hn. symmetry. apply andb_true_iff.
+    split; apply Htk, Hn; lia.
+Qed.
+
+Theorem full_refused_sound cfg s o : BWF s -> bop_in_range s o = true ->
+  full_refused_b s o (is_ok (snd (bstep cfg s o))) = true.
+Proof.
+  intros W Hr. destruct o; try reflexivity. destruct a as [p| |]; try reflexivity.
+  unfold bstep. rewrite Hr. cbn [negb full_refused_b]. unfold slot_at.
+  fold (slot (bkids s p) 0). fold (slot (bkids s p) 1).
+  change (match slot (bkids s p) 0 with Some x => negb (Nat.eqb x c) | None => false end)
+    with (takenb c (slot (bkids s p) 0)).
+  change (match slot (bkids s p) 1 with Some x => negb (Nat.eqb x c) | None => false end)
+    with (takenb c (slot (bkids s p) 1)).
+  rewrite <- (detach_full s c p W).
+  assert (Hloop : Nat.eqb p c || is_anc_b s (bsize s) c p = bparent_loop s c (Some p)).
+  { unfold bparent_loop, bancestors. rewrite is_anc_b_memb. reflexivity. }
+  rewrite Hloop. unfold bset_parent. cbv zeta.
+  destruct (bfull (bdetach s c) (Some p)) eqn:EF.
+  - destruct (bparent_loop s c (Some p)); [reflexivity|]. destruct (fault_eqb ft PreFail); [reflexivity|].
+    rewrite (bcorrupted_false s c W). reflexivity.
+  - destruct (fault_eqb ft NoFault) eqn:Eft; [|reflexivity]. destruct ft; try discriminate.
+    destruct (bparent_loop s c (Some p)); [reflexivity|]. cbn [negb andb fault_eqb].
+    rewrite (bcorrupted_false s c W). reflexivity.
+Qed.
+
+(* ------------------------------------------------------------------------------------------ *)
+(* "assigning a child to a slot empties the slot it came from" *)
+
+Lemma moved_ok_relinked s s' (p : id) news (x : id) i :
+  relinked s s' p news -> once news -> slot news i = Some x -> moved_ok s s' x p i = true.
+Proof.
+  intros [Rs Rp Rkp Rl Rk] Ho Hi. unfold moved_ok, slot_at.
+  fold (slot (bkids s' p) i). rewrite Rkp, Hi, boid_eqb_refl.
+  assert (Hm : slot_mem x news = true) by (apply slot_mem_In; exact (slot_In _ _ _ Hi)).
+  rewrite Rp, Hm, boid_eqb_refl. cbn [andb].
+  apply forallb_bids. intros q _. apply forallb_forall. intros j _.
+  fold (slot (bkids s q) j). fold (slot (bkids s' q) j).
+  destruct (boid_eqb (slot (bkids s q) j) (Some x)) eqn:E1; [|reflexivity]. apply boid_eqb_eq in E1.
+  destruct (Nat.eqb_spec q p) as [->|Hq]; cbn [andb negb].
+  - destruct (Nat.eqb_spec j i) as [->|Hj]; cbn [negb]; [reflexivity|]. rewrite Rkp.
+    destruct (boid_eqb (slot news j) (Some x)) eqn:E2; [|reflexivity]. apply boid_eqb_eq in E2.
+    exfalso. apply Hj. exact (Ho _ _ _ E2 Hi).
+  - rewrite Rk, E1 by exact Hq. cbn [rmset]. rewrite Hm. reflexivity.
+Qed.
+
+Lemma assigned_ok_relinked s s' (p : id) news i a : BWF s ->
+  relinked s s' p news -> once news -> length news = 2 -> i < 2 ->
+  slot news i = slot_of_arg a -> a <> AJunk -> assigned_ok s s' p i a = true.
+Proof.
+  intros W R Ho Hl Hi Hs Hj. destruct a as [x| |]; [|  |congruence]; cbn [assigned_ok slot_of_arg] in *.
+  - exact (moved_ok_relinked s s' p news x i R Ho Hs).
+  - destruct R as [Rs Rp Rkp Rl Rk]. unfold emptied_ok, slot_at.
+    fold (slot (bkids s' p) i). fold (slot (bkids s' p) (1 - i)). fold (slot (bkids s p) i).
+    rewrite Rkp, Hs. cbn [boid_eqb opt_eqb andb].
+    destruct (slot (bkids s p) i) as [y|] eqn:Ey; [|reflexivity].
+    destruct (boid_eqb (slot news (1 - i)) (Some y)) eqn:E1; [reflexivity|].
+    assert (Hn : slot_mem y news = false).
+    { apply slot_mem_false. intros Hin. apply In_slot in Hin. destruct Hin as [j Hj'].
+      pose proof (slot_lt _ _ _ Hj') as Hlt. rewrite Hl in Hlt.
+      assert (Hji : j = i \/ j = 1 - i) by lia. destruct Hji as [->| ->]; [congruence|].
+      rewrite Hj', boid_eqb_refl in E1. discriminate. }
+    assert (Hk : slot_mem y (bkids s p) = true) by (apply slot_mem_In; exact (slot_In _ _ _ Ey)).
+    rewrite Rp, Hn, Hk. reflexivity.
+Qed.
+
+Lemma check_no_junk s p a1 a2 : bcheck_children s p [a1; a2] [] = None -> a1 <> AJunk /\ a2 <> AJunk.
+Proof.
+  intros H. split; intros ->; [discriminate|]. destruct a1 as [x| |]; cbn [bcheck_children] in H; try discriminate.
+  destruct (Nat.eqb x p); [discriminate|]. destruct (memb x (bancestors s p)); [discriminate|].
+  destruct (memb x []); discriminate.
+Qed.
+
+Lemma is_ok_false o : o <> Ok -> is_ok o = false.
+Proof. destruct o; [congruence|reflexivity]. Qed.
+
+(* what an accepted children assignment looks like *)
+Lemma children_accepted cfg ft s (p : id) cont args : BWF s -> p < bsize s ->
+  forallb (barg_in_range s) args = true ->
+  is_ok (snd (bset_children cfg ft s p cont args)) = true ->
+  exists a1 a2, norm_args args = [a1; a2] /\ a1 <> AJunk /\ a2 <> AJunk
+    /\ relinked s (fst (bset_children cfg ft s p cont args)) p [slot_of_arg a1; slot_of_arg a2]
+    /\ valid_news s p [slot_of_arg a1; slot_of_arg a2].
+Proof.
+  intros W Hp Hr Hok. apply norm_args_range in Hr.
+  destruct (set_children_inv cfg ft s p cont args) as [E1 E2|a1 a2 EN EC E|a1 a2 EN EC E].
+  - rewrite (is_ok_false _ E2) in Hok. discriminate.
+  - rewrite E in Hok. discriminate.
+  - rewrite EN in Hr. cbn [forallb] in Hr. apply andb_true_iff in Hr. destruct Hr as [R1 R2].
+    apply andb_true_iff in R2. destruct R2 as [R2 _].
+    destruct (check_valid s p a1 a2 W Hp R1 R2 EC) as [V Hab]. destruct (check_no_junk s p a1 a2 EC) as [J1 J2].
+    exists a1, a2. rewrite E. cbn [fst]. split; [exact EN|]. split; [exact J1|]. split; [exact J2|].
+    split; [apply (assign_relinked s p _ _ W Hp Hab)|exact V].
+Qed.
+
+Theorem slot_moves_sound cfg s o : BWF s -> bop_in_range s o = true ->
+  slot_moves_b s o (fst (bstep cfg s o)) (is_ok (snd (bstep cfg s o))) = true.
+Proof.
+  intros W Hr. unfold slot_moves_b.
+  destruct (is_ok (snd (bstep cfg s o))) eqn:Hok; cbn [negb]; [|reflexivity].
+  destruct o; try reflexivity; revert Hok; unfold bstep; rewrite Hr; cbn [negb];
+    cbn [bop_in_range] in Hr; repeat (apply andb_true_iff in Hr; destruct Hr as [Hr ?]);
+    unfold bin_range in *; apply Nat.ltb_lt in Hr; intros Hok.
+  - (* p.children = args *)
+    destruct (children_accepted cfg ft s p cont args W Hr H Hok) as [a1 [a2 [EN [J1 [J2 [R V]]]]]].
+    destruct V as [Vl Vo _ _].
+    assert (A0 := assigned_ok_relinked s _ p _ 0 a1 W R Vo Vl ltac:(lia) eq_refl J1).
+    assert (A1 := assigned_ok_relinked s _ p _ 1 a2 W R Vo Vl ltac:(lia) eq_refl J2).
+    destruct args as [|b1 [|b2 [|b3 t]]]; cbn [norm_args] in EN; try discriminate.
+    + injection EN as <- <-. cbn [assigned_ok] in A0, A1. rewrite A0, A1. reflexivity.
+    + injection EN as <- <-. rewrite A0, A1. reflexivity.
+  - (* p.left = a *)
+    unfold bset_left, right_of in *. destruct (nth_error (bkids s p) 1) as [r|] eqn:E; [|discriminate].
+    assert (Hr2 : forallb (barg_in_range s) [a; arg_of_slot r] = true).
+    { cbn [forallb]. rewrite H, (arg_of_slot_range s p 1 r W E). reflexivity. }
+    destruct (children_accepted cfg ft s p CList _ W Hr Hr2 Hok) as [a1 [a2 [EN [J1 [J2 [R V]]]]]].
+    cbn [norm_args] in EN. injection EN as <- <-. destruct V as [Vl Vo _ _].
+    rewrite (assigned_ok_relinked s _ p _ 0 a W R Vo Vl ltac:(lia) eq_refl J1). cbn [andb].
+    unfold slot_at. fold (slot (bkids (fst (bset_children cfg ft s p CList [a; arg_of_slot r])) p) 1).
+    rewrite (rl_kids_p _ _ _ _ R), slot2. fold (slot (bkids s p) 1). rewrite (nth_error_slot _ _ _ E).
+    destruct r; apply boid_eqb_refl.
+  - (* p.right = a *)
+    unfold bset_right, left_of in *. destruct (nth_error (bkids s p) 0) as [l|] eqn:E; [|discriminate].
+    assert (Hr2 : forallb (barg_in_range s) [arg_of_slot l; a] = true).
+    { cbn [forallb]. rewrite H, (arg_of_slot_range s p 0 l W E). reflexivity. }
+    destruct (children_accepted cfg ft s p CList _ W Hr Hr2 Hok) as [a1 [a2 [EN [J1 [J2 [R V]]]]]].
+    cbn [norm_args] in EN. injection EN as <- <-. destruct V as [Vl Vo _ _].
+    rewrite (assigned_ok_relinked s _ p _ 1 a W R Vo Vl ltac:(lia) eq_refl J2). cbn [andb].
+    unfold slot_at. fold (slot (bkids (fst (bset_children cfg ft s p CList [arg_of_slot l; a])) p) 0).
+    rewrite (rl_kids_p _ _ _ _ R), slot2. fold (slot (bkids s p) 0). rewrite (nth_error_slot _ _ _ E).
+    destruct l; apply boid_eqb_refl.
+Qed.
+
+(* ------------------------------------------------------------------------------------------ *)
+(* "attaching by parent fills the first empty slot (left before right)" *)
+
+Lemma un_rm (c : id) o : (if boid_eqb o (Some c) then None else o) = rm c o.
+Proof.
+  unfold rm. destruct o as [y|]; [|reflexivity]. cbn [boid_eqb opt_eqb]. rewrite (Nat.eqb_sym y c).
+  destruct (Nat.eqb c y); reflexivity.
+Qed.
+
+Theorem parent_first_empty_sound cfg s o : BWF s -> bop_in_range s o = true ->
+  parent_first_empty_b s o (fst (bstep cfg s o)) (is_ok (snd (bstep cfg s o))) = true.
+Proof.
+  intros W Hr. unfold parent_first_empty_b.
+  destruct (is_ok (snd (bstep cfg s o))) eqn:Hok; cbn [negb]; [|reflexivity].
+  destruct o; try reflexivity. revert Hok. unfold bstep. rewrite Hr. cbn [negb].
+  cbn [bop_in_range] in Hr. apply andb_true_iff in Hr. destruct Hr as [Hc Ha].
+  unfold bin_range in Hc. apply Nat.ltb_lt in Hc.
+  unfold bset_parent. destruct a as [p| |]; cbv zeta; [| |discriminate].
+  - destruct (bparent_loop s c (Some p)) eqn:EL; [discriminate|]. destruct (loop_false s c p EL) as [Hpc Hanc].
+    destruct (fault_eqb ft PreFail); [discriminate|]. rewrite (bcorrupted_false s c W).
+    destruct (bfull (bdetach s c) (Some p)) eqn:EF; [discriminate|].
+    destruct (fault_eqb ft PostFail); [discriminate|]. intros _. cbn [fst].
+    cbn [barg_in_range] in Ha. unfold bin_range in Ha. apply Nat.ltb_lt in Ha.
+    destruct (attach_relinked s c p W Hc Ha Hpc Hanc EF) as [R V].
+    destruct (bfull_false _ _ EF) as [i Ei]. pose proof (sp_news_slot s c p i W Ei) as HS.
+    destruct (first_empty_some _ _ Ei) as [Hi [Hnone Hmin]].
+    destruct (detach_kids s c p W) as [Hlen Hs]. rewrite Hlen, (bw_len s W) in Hi. rewrite Hs in Hnone.
+    unfold slot_at. rewrite !un_rm.
+    fold (slot (bkids s p) 0). fold (slot (bkids s p) 1).
+    set (s' := battach (bdetach s c) c (Some p)) in *.
+    fold (slot (bkids s' p) 0). fold (slot (bkids s' p) 1).
+    rewrite (rl_kids_p _ _ _ _ R), !HS.
+    assert (Hm : slot_mem c (sp_news s c p) = true).
+    { apply slot_mem_In, (slot_In _ i). rewrite HS, Nat.eqb_refl. reflexivity. }
+    rewrite (rl_par _ _ _ _ R), Hm, boid_eqb_refl. cbn [andb].
+    destruct (rm c (slot (bkids s p) 0)) as [y|] eqn:E0.
+    + assert (Ei1 : i = 1).
+      { destruct i as [|[|i]]; [congruence|reflexivity|lia]. }
+      subst i. cbn [Nat.eqb]. rewrite !boid_eqb_refl. cbn [andb].
+      apply (moved_ok_relinked s s' p _ c 1 R (vn_once _ _ _ V)). rewrite HS. reflexivity.
+    + assert (Ei0 : i = 0).
+      { destruct i as [|i]; [reflexivity|]. exfalso. apply (Hmin 0); [lia|]. rewrite Hs. exact E0. }
+      subst i. cbn [Nat.eqb]. rewrite !boid_eqb_refl. cbn [andb].
+      apply (moved_ok_relinked s s' p _ c 0 R (vn_once _ _ _ V)). rewrite HS. reflexivity.
+  - cbn [bparent_loop bfull]. destruct (fault_eqb ft PreFail); [discriminate|]. rewrite (bcorrupted_false s c W).
+    destruct (fault_eqb ft PostFail); [discriminate|]. intros _. cbn [fst]. unfold battach.
+    pose proof (orphan_BWF s c W) as W'. set (s' := bset_par (bdetach s c) c None) in *.
+    assert (Ec : bpar s' c = None) by (unfold s'; cbn [bpar bset_par]; apply upd_same).
+    rewrite Ec. cbn [boid_eqb opt_eqb andb]. apply forallb_bids. intros q _. apply Nat.eqb_eq, occ_absent.
+    intros Hin. apply In_slot in Hin. destruct Hin as [j Hj]. apply (bw_down s' W') in Hj. congruence.
+Qed.
+
+(* ------------------------------------------------------------------------------------------ *)
+(* all clauses of C11 on one step; `left` / `right` are the two slots *)
+
+Theorem prop_C11_step_sound cfg s o : BWF s -> bop_in_range s o = true ->
+  prop_C11_step s o (fst (bstep cfg s o)) (is_ok (snd (bstep cfg s o))) = true.
+Proof.
+  intros W Hr. unfold prop_C11_step.
+  rewrite (BWF_bwf_b _ (bstep_BWF cfg s o W)), (slot_moves_sound cfg s o W Hr),
+          (parent_first_empty_sound cfg s o W Hr), (full_refused_sound cfg s o W Hr),
+          (del_empties_sound cfg s o W Hr). reflexivity.
+Qed.
+
+Theorem getters_sound s : BWF s -> getters_ok_b s (fun p => (left_of s p, right_of s p)) = true.
+Proof.
+  intros W. unfold getters_ok_b. apply forallb_bids. intros p _. cbn [fst snd]. unfold left_of, right_of.
+  destruct (len2 _ (bw_len s W p)) as [a [b ->]]. cbn [nth_error]. unfold opt_eqb at 1 2.
+  rewrite !boid_eqb_refl. reflexivity.
+Qed.
+
+(* an operation outside the live ids is declined by the model and leaves the state alone *)
+Lemma bstep_out_of_range cfg s o : bop_in_range s o = false -> bstep cfg s o = (s, Err Unmodelled).
+Proof. intros H. unfold bstep. rewrite H. reflexivity. Qed.
+
+(* C20 lifted to histories: when every operation of a history is accepted under one setting of the
+   switch, the whole trace (states and outcomes) is the same under the other setting *)
+Theorem binary_assert_irrelevant_trace cfg cfg' : forall ops s,
+  Forall (fun r => snd r = Ok) (btrace cfg s ops) -> btrace cfg' s ops = btrace cfg s ops.
+Proof.
+  induction ops as [|o t IH]; intros s H; [reflexivity|]. cbn [btrace] in *.
+  inversion H as [|r l H1 H2]; subst. rewrite (binary_assert_irrelevant cfg cfg' s o H1).
+  f_equal. apply IH. exact H2.
+Qed.
